@@ -8,6 +8,7 @@ CONSTANTS
   BugUseFlagAll = FALSE
   BugOptionalOrigState = FALSE
   BugNames = "product_right_only"
+  BugErrorState = "none"
   BugMissingIsOther = FALSE
   BugUsage = "none"
 VIEW View
